@@ -229,3 +229,72 @@ def sum_width_from_input(ctx: Ctx, fq: str = "cirkit.templates.region_graph.grap
     if k == 0:
         out.append(unres("R14d", fq, "sum-width", "no sum_factory(..) call found", f.loc))
     return out
+
+
+# ------------------------------------------------------------------------------------------ R14e
+def numpy_scalars_into_scopes(ctx: Ctx, modules: tuple[str, ...] = ("cirkit.templates.region_graph",)) -> list[Ob]:
+    """R14e -- variable ids that enter a Scope are Python ints.
+
+    A region graph is saved with ``json``: a scope that contains a ``numpy.int64`` (an element read
+    from an ``np.ndarray`` parameter and never converted) builds, validates and compiles like any
+    other, but ``RegionGraph.dump`` raises ``TypeError: Object of type int64 is not JSON serializable``
+    -- 'saving and loading it preserves it' fails for exactly the graphs whose construction read
+    that element.  Flow-sensitive taint: sources are subscripts of parameters annotated ``np.ndarray``
+    (and loop variables over them); ``int(..)`` sanitises; sinks are the arguments of ``Scope(..)`` /
+    ``RegionNode(..)`` / ``PartitionNode(..)``."""
+    out: list[Ob] = []
+    for f in ctx.repo.iter_functions():
+        if not f.module.name.startswith(modules):
+            continue
+        arrs = {p.name for p in f.params if p.annotation is not None and "ndarray" in unparse(p.annotation)}
+        if not arrs:
+            continue
+        g = build_cfg(f.node)
+        fc = FlowCanon(g)
+        n_sinks = 0
+        bad = None
+        for n, st in g.stmts.items():
+            roots = [st] if not isinstance(st, (ast.If, ast.For, ast.While, ast.With, ast.Try, ast.FunctionDef)) else ([st.test] if isinstance(st, (ast.If, ast.While)) else [st.iter] if isinstance(st, ast.For) else [])
+            for r in roots:
+                for c in ast.walk(r):
+                    if isinstance(c, ast.Call) and (dotted(c.func) or "").split(".")[-1] in ("Scope", "RegionNode", "PartitionNode") and c.args:
+                        n_sinks += 1
+                        ce = fc.expr(c.args[0], n)
+                        # any element of an ndarray parameter that is not under int(..)
+                        par: dict[int, ast.AST] = {}
+                        for x in ast.walk(ce):
+                            for ch in ast.iter_child_nodes(x):
+                                par[id(ch)] = x
+                        for x in ast.walk(ce):
+                            is_src = (isinstance(x, ast.Subscript) and isinstance(x.value, ast.Name) and x.value.id in arrs) or (
+                                isinstance(x, ast.Call) and isinstance(x.func, ast.Name) and x.func.id == "ELEM" and x.args and isinstance(x.args[0], ast.Name) and x.args[0].id in arrs
+                            )
+                            if not is_src:
+                                continue
+                            cur: ast.AST | None = x
+                            safe = False
+                            while cur is not None:
+                                p = par.get(id(cur))
+                                if isinstance(p, ast.Call) and isinstance(p.func, ast.Name) and p.func.id in ("int", "len", "range") and cur in p.args:
+                                    safe = True
+                                    break
+                                if isinstance(p, ast.Subscript) and p.slice is cur:
+                                    safe = True  # used as an index, not as a member
+                                    break
+                                if isinstance(p, ast.Compare):
+                                    safe = True
+                                    break
+                                cur = p
+                            if not safe and bad is None:
+                                bad = (c, unparse(x))
+        inst = "scope-members"
+        if bad is not None:
+            c, src = bad
+            out.append(viol("R14e", f.qualname, inst, f"`{unparse(c)[:60]}` can receive `{src}` -- an element of the numpy array parameter, a numpy integer -- as a variable id without int(..): the region graph builds and compiles, but RegionGraph.dump raises TypeError (not JSON serializable)", f"{f.module.relpath}:{c.lineno}"))
+        elif n_sinks:
+            out.append(ok("R14e", f.qualname, inst, f"{n_sinks} scope construction(s): array elements are converted with int(..) before they become variable ids", f.loc))
+        else:
+            out.append(unres("R14e", f.qualname, inst, "a function with an ndarray parameter that builds no scope", f.loc))
+    if not out:
+        out.append(unres("R14e", "cirkit.templates.region_graph", "scope-members", "no function with an np.ndarray parameter found", ""))
+    return out
